@@ -1,4 +1,5 @@
 import SppModel.Generated.ReaderArith
+import SppModel.Frozen.ReaderArith
 import SppModel.Model.Fold
 /-!
 # Source tie — `Filterbank.fold` gulp clamp, skipback and phase offset (C11)
@@ -7,9 +8,9 @@ import SppModel.Model.Fold
 translator no longer recognises is listed in its `translationFailures` (the module still elaborates).
 -/
 namespace SppModel.Tie
-open SppModel SppModel.Generated.ReaderArith
+open SppModel SppModel.Frozen.ReaderArith
 
-theorem fold_translated : ∀ f ∈ translationFailures, f.1 ∉ ["base_py", "fold_index", "fold_gulp", "fold_skipback"] := by decide
+theorem fold_translated : ∀ f ∈ Generated.ReaderArith.translationFailures, f.1 ∉ ["base_py", "fold_index", "fold_gulp", "fold_skipback"] := by decide
 
 theorem fold_index_eq (G ii md : Nat) : fold_index G ii md = ii * (G - md) := rfl
 theorem fold_gulp_eq (g md : Nat) : fold_gulp g md = max (2 * md) g := rfl
